@@ -86,6 +86,7 @@ type SpecFn struct {
 	Res     string
 	Body    ast.Expr // nil: uninterpreted
 	Reads   []string // "T.f" heap fields passed implicitly (uninterpreted heap-reading functions)
+	Heap    bool     // uninterpreted over the heap version token (frame rule of DESIGN 3.3)
 	Unfolds map[string]*Lemma
 	File    string
 	Line    int
@@ -107,6 +108,7 @@ type Lemma struct {
 type IfaceContract struct {
 	PkgPath string
 	Name    string
+	Impls   []string // closed list of implementing types checked for refinement (empty: all module implementers)
 	Assumed bool // implementations outside the library: contracts are assumptions
 	Methods map[string]*FuncContract
 }
@@ -585,11 +587,24 @@ func (cs *Contracts) parseBlock(b []cline, path, pkgPath string) {
 		sf.Name, sf.Params = name, params
 		if len(results) > 0 {
 			sf.Res = results[0].Type
+			if strings.HasSuffix(sf.Res, " heap") {
+				sf.Res = strings.TrimSpace(strings.TrimSuffix(sf.Res, " heap"))
+				sf.Heap = true
+			}
 		}
 		if body != "" {
 			sf.Body = parseExprAt(body, path, head.line)
 		}
-		for _, l := range joinClauses(tail) {
+		var stail []cline
+		for _, l := range tail {
+			w := firstWord(l.text)
+			if w == "unfold" || w == "reads" || len(stail) == 0 {
+				stail = append(stail, l)
+			} else {
+				stail[len(stail)-1].text += " " + l.text
+			}
+		}
+		for _, l := range stail {
 			w := firstWord(l.text)
 			r := strings.TrimSpace(l.text[len(w):])
 			switch w {
@@ -650,6 +665,10 @@ func (cs *Contracts) parseBlock(b []cline, path, pkgPath string) {
 			buf = nil
 		}
 		for _, l := range b[1:] {
+			if firstWord(l.text) == "implementations" {
+				ic.Impls = append(ic.Impls, splitTop(strings.TrimSpace(l.text[len("implementations"):]), ',')...)
+				continue
+			}
 			if firstWord(l.text) == "method" {
 				flush()
 				sig := strings.TrimSpace(l.text[len("method"):])
@@ -765,10 +784,7 @@ func funcKey(recv *Param, name string) string {
 		return name
 	}
 	t := strings.TrimSpace(recv.Type)
-	if strings.HasPrefix(t, "*") {
-		return "(*" + t[1:] + ")." + name
-	}
-	return t + "." + name
+	return "(" + t + ")." + name
 }
 
 // LoadContracts reads every zz_verif_contracts*.go below root.
